@@ -301,3 +301,9 @@ def check(rep):
     rule_skipws_stateless(rep)
     rule_subparser(rep)
     rule_regex_literals(rep)
+    from .C08 import rule_roles_glr, rule_roles_lr
+    from .C15 import rule_swap_restore
+
+    rule_roles_lr(rep)  # layout_content(_ahead) of every stack node comes from the right head
+    rule_roles_glr(rep)
+    rule_swap_restore(rep)  # the layout table build leaves the augmented production as it found it
